@@ -23,7 +23,9 @@ def correspondence(ctx):
     quick = ctx.tier == 'quick'
     seed = ctx.rng.randrange(1, 10 ** 6)
     # cases(seed, n): k % 10 == 0 is a block-fill scenario, 1 the deep / RR_MOVED scenario, the rest random flavours
-    cs = at.cases(seed, 10 if quick else 60)
+    cs = common.safe_cases(ctx, NAME, lambda: at.cases(seed, 10 if quick else 60))
+    if cs is None:
+        return
     if quick:
         # the long random histories cost minutes inside Coq: keep the scenarios and the shorter histories
         cs = sorted(cs, key=lambda c: len(c['ops']))[:8]
